@@ -379,6 +379,14 @@ func (v *fnVC) calleeFrameCheck(con *Contract, env *Env, key string, pos token.P
 			ex, _ := parseExpr(m[5 : len(m)-1])
 			t, _ := v.tr(ex, env)
 			v.frameCheckTree(t, key+": "+m, pos)
+		case strings.HasPrefix(m, "cell("):
+			ex, _ := parseExpr(m[5 : len(m)-1])
+			t, ty := v.tr(ex, env)
+			if pt, ok := ty.Underlying().(*types.Pointer); ok {
+				for _, leaf := range v.leafAddrs(t, pt.Elem()) {
+					v.frameCheck(leaf, key+": "+m, pos)
+				}
+			}
 		case strings.HasPrefix(m, "elems("):
 			ex, _ := parseExpr(m[6 : len(m)-1])
 			t, _ := v.tr(ex, env)
@@ -446,6 +454,19 @@ func (v *fnVC) applyModifies(con *Contract, env *Env) {
 			for _, k := range ks {
 				tt := t
 				items = append(items, item{k, func(a T) T { return app("inTree", tt, app("root", a)) }})
+			}
+			continue
+		}
+		if strings.HasPrefix(m, "cell(") {
+			e, err := parseExpr(m[5 : len(m)-1])
+			if err != nil {
+				panic(err)
+			}
+			t, ty := v.tr(e, env)
+			pt := ty.Underlying().(*types.Pointer)
+			for _, lp := range v.leafPaths(pt.Elem()) {
+				ad := lp.wrap(t)
+				items = append(items, item{lp.mem, func(a T) T { return eq(a, ad) }})
 			}
 			continue
 		}
@@ -1021,6 +1042,15 @@ func (v *fnVC) modSortsOfContract(con *Contract, x *ssa.Call, mod map[string]boo
 			for k := range v.memSrt {
 				if k != allocMem && k != deferMem && k != visMem && !strings.HasPrefix(k, "L_") {
 					mod[k] = true
+				}
+			}
+			continue
+		}
+		if strings.HasPrefix(m, "cell(") {
+			e, _ := parseExpr(m[5 : len(m)-1])
+			if ty := v.typeOnly(e, env); ty != nil {
+				if pt, ok := ty.Underlying().(*types.Pointer); ok {
+					v.leafSorts(pt.Elem(), mod)
 				}
 			}
 			continue
